@@ -109,6 +109,8 @@ P['C05'] = dict(
                reach=['cancel', 'disconnect', 'destroyed', 'drained', 'struck-mid-handshake', 'struck-after-connack'], samples=10),
           dict(name='completion_once_and_drain_layered', tu='harness/w_cancel.cpp', entry='h_cancel', engine='B', clock=True, defs={'VK_OPS': 2, 'VK_LAYERED': 1, 'VK_MALFORMED': 1}, defs_quick={'VK_STEPS': 4}, defs_thorough={'VK_STEPS': 5},
                reach=['answered', 'cancel', 'disconnect', 'destroyed', 'drained', 'restarted', 'shutdown-pending', 'disconnect-write-unrecoverable', 'malformed-packet', 'internal-cancel'], samples=10),
+          dict(name='cancel_inside_handler', tu='harness/w_cancel.cpp', entry='h_cancel', engine='B', clock=True, defs={'VK_OPS': 3, 'VK_INLINE_DISPATCH': 1, 'VK_CANCEL_IN_HANDLER': 1}, defs_quick={'VK_STEPS': 4}, defs_thorough={'VK_STEPS': 5},
+               reach=['answered', 'drained', 'cancel-in-handler-armed', 'cancel-from-a-handler'], samples=10),
           dict(name='internal_cancel', tu='harness/w_cancel.cpp', entry='h_cancel', engine='B', clock=True, defs={'VK_OPS': 2, 'VK_MALFORMED': 1}, defs_quick={'VK_STEPS': 4}, defs_thorough={'VK_STEPS': 5},
                reach=['drained', 'malformed-packet', 'internal-cancel'], samples=10),
           dict(name='stop_during_handshake_layered', tu='harness/w_cancel.cpp', entry='h_cancel_handshake', engine='B', clock=True, defs={'VK_OPS': 3, 'VK_LAYERED': 1},
@@ -146,6 +148,8 @@ for _e in ['puback', 'pubcomp', 'suback', 'connack', 'publish', 'disconnect', 'a
 P['C19']['jobs'] += [dict(name='handshake_bytes', tu='harness/w_conn.cpp', entry='h_hostile_handshake', engine='B', clock=True, defs={'VK_SYMCFG': 0, 'VK_ATTEMPTS': 1}, defs_quick={'VK_BYTES': 5}, defs_thorough={'VK_BYTES': 6},
                           reach=['accepted', 'rejected', 'split', 'long-reply'], samples=10)]
 
+P['C19']['jobs'] += [dict(name='auth_handshake_bytes', tu='harness/w_conn.cpp', entry='h_hostile_auth_handshake', engine='B', clock=True, defs={'VK_SYMCFG': 0, 'VK_ATTEMPTS': 1}, defs_quick={'VK_BYTES': 5}, defs_thorough={'VK_BYTES': 6},
+                          reach=['auth-round', 'accepted', 'rejected', 'split'], samples=10)]
 P['C19']['jobs'] += [dict(name='stream_bytes', tu='harness/w_hostile.cpp', entry='h_hostile_stream', engine='B', clock=True, defs={'VK_FLOOD': 0}, defs_quick={'VK_BYTES': 5}, defs_thorough={'VK_BYTES': 6},
                           reach=['split', 'completed', 'well-formed-accepted', 'malformed'], samples=10),
                      dict(name='stream_flood', tu='harness/w_hostile.cpp', entry='h_hostile_stream', engine='B', clock=True, defs={'VK_FLOOD': 1}, defs_quick={'VK_BYTES': 3}, defs_thorough={'VK_BYTES': 4},
@@ -171,8 +175,8 @@ P['C15'] = dict(
     level_text='On the real mqtt_client holding a CONNACK whose capability properties are absent or all present with symbolic values (Maximum Packet Size 16..64, Maximum QoS, Retain Available, Topic Alias Maximum over all 16 bits, wildcard / shared / subscription-identifier availability): one publish (any QoS, RETAIN, optional symbolic Topic Alias, payload sized below / around / above the limit), one subscribe (plain, wildcard, shared, shared+wildcard filters, optional Subscription Identifier, one or two topics) or one DISCONNECT with a short or long Reason String. A reference model of the capability rules decides what must happen: a violating request completes at once with one of the documented codes of the violated capabilities, nothing is written and no packet identifier stays consumed (the next QoS 1 publish gets id 1); otherwise the packet found on the wire respects every announced limit (size measured on the wire); an oversized DISCONNECT is re-encoded without properties.',
     level_note='Bounds: one request per run; packet sizes up to ~60 bytes. Only the capabilities named in the statement. The client is run with and without limits of its own in CONNECT (symbolic Topic Alias Maximum, Receive Maximum, Maximum Packet Size 16..64): they bind the broker and must not change what the client may send.',
     assumptions=_pub_assume[:2],
-    jobs=[dict(name='publish_caps', tu=_caps, entry='h_caps_publish', engine='B', clock=True, reach=['rejected-size', 'rejected-qos', 'rejected-retain', 'rejected-alias', 'accepted', 'own-limits-configured'], samples=10),
-          dict(name='subscribe_caps', tu=_caps, entry='h_caps_subscribe', engine='B', clock=True, reach=['rejected-shared', 'rejected-wildcard', 'rejected-subid', 'accepted', 'own-limits-configured'], samples=10),
+    jobs=[dict(name='publish_caps', tu=_caps, entry='h_caps_publish', engine='B', clock=True, reach=['rejected-size', 'rejected-qos', 'rejected-retain', 'rejected-alias', 'accepted', 'own-limits-configured', 'authenticator-configured'], samples=10),
+          dict(name='subscribe_caps', tu=_caps, entry='h_caps_subscribe', engine='B', clock=True, reach=['rejected-shared', 'rejected-wildcard', 'rejected-subid', 'accepted', 'own-limits-configured', 'authenticator-configured'], samples=10),
           dict(name='disconnect_caps', tu=_caps, entry='h_caps_disconnect', engine='B', clock=True, reach=['kept-properties', 'dropped-properties', 'exactly-at-the-limit'], samples=6)])
 P['C16']['jobs'] += [dict(name='request_validation', tu=_caps, entry='h_req_validation', engine='B', clock=True,
                           reach=['subscription-identifier', 'utf8-payload', 'user-property', 'response-topic', 'content-type', 'empty-topic', 'reason-string', 'unsubscribe-filter', 'accepted', 'rejected'], samples=10)]
